@@ -13,7 +13,7 @@ import (
 )
 
 func init() {
-	core.Register(core.Check{ID: "C04", Level: "exploration", Run: func(c *core.Ctx) { runC04(c); reentrancyPass(c, "C04") }})
+	core.Register(core.Check{ID: "C04", Level: "exploration", Run: func(c *core.Ctx) { runC04(c); historyPass(c, "C04"); reentrancyPass(c, "C04") }})
 }
 
 func c04Class(s string) string {
